@@ -516,6 +516,7 @@ func runMain(propID, tier string) int {
 	reported := map[string]bool{}
 	exit := 0
 	nviol := 0
+	unconfirmed := 0
 	for _, wv := range viols {
 		id := wv.V.id()
 		if reported[id] {
@@ -526,14 +527,24 @@ func runMain(propID, tier string) int {
 			fmt.Printf("KNOWN-FINDING: property=%s %s [%s]\n", propID, desc, id)
 			continue
 		}
-		nviol++
 		path := reportViolation(p, seed, tier, wv)
+		if path == "" {
+			// seen by a worker, not reproduced by any means: never reported as a violation (a replay file must
+			// reproduce). It makes the run inconclusive (exit 2) unless another, confirmed violation is reported.
+			unconfirmed++
+			continue
+		}
+		nviol++
 		fmt.Printf("VIOLATION property=%s replay=%s\n", propID, path)
 		fmt.Printf("  oracle=%s key=%s\n  %s\n", wv.V.Oracle, wv.V.Key, strings.ReplaceAll(wv.V.Detail, "\n", "\n  "))
 		exit = 1
 		if nviol >= 8 {
 			break
 		}
+	}
+	if unconfirmed > 0 && nviol == 0 {
+		fmt.Fprintf(os.Stderr, "harness error: %d observation(s) of a worker did not reproduce and no violation was confirmed\n", unconfirmed)
+		return 2
 	}
 	// determinism cross-check: re-execute the sampled scenarios in this process
 	detIdx := make([]int, 0, len(det))
@@ -693,6 +704,9 @@ func reportViolation(p *PropDef, seed uint64, tier string, wv WorkerViol) string
 				writeJSON(path, rf)
 				return path
 			}
+			if ee, ok := err.(*exec.ExitError); ok && ee.ExitCode() == 3 {
+				return "" // not reproduced
+			}
 			fmt.Fprintln(os.Stderr, "harness error: report subprocess:", err)
 			os.Exit(2)
 		}
@@ -726,9 +740,12 @@ func reportViolation(p *PropDef, seed uint64, tier string, wv WorkerViol) string
 		hits := 0
 		const tries = 30
 		for i := 0; i < tries; i++ {
+			// the library's own goroutines are scheduled by the Go runtime: vary what it has to work with
+			old := runtime.GOMAXPROCS([]int{0, 1, 2}[i%3])
 			if hasViolation(runScenario(sc), id) != nil {
 				hits++
 			}
+			runtime.GOMAXPROCS(old)
 		}
 		if hits > 0 {
 			rf.Scenario = sc
@@ -740,8 +757,11 @@ func reportViolation(p *PropDef, seed uint64, tier string, wv WorkerViol) string
 		rf.Scenario = sc
 		rf.Detail += "\n(NOT REPRODUCED: harness nondeterminism)"
 		writeJSON(path, rf)
-		fmt.Fprintf(os.Stderr, "harness error: violation %s of scenario %d did not reproduce, neither alone nor after the worker's earlier scenarios\n", id, wv.Index)
-		os.Exit(2)
+		fmt.Fprintf(os.Stderr, "note: observation %s of scenario %d did not reproduce, neither alone nor after the worker's earlier scenarios nor in %d re-executions\n", id, wv.Index, tries)
+		if os.Getenv("IKESIM_REPORT_PATH") != "" {
+			os.Exit(3) // report subprocess: tell the parent
+		}
+		return ""
 	}
 	min := shrink(sc, id)
 	if p.ID == "C18" {
@@ -1120,8 +1140,10 @@ func replayMain(path string) int {
 	}
 	res := runScenario(rf.Scenario)
 	if rf.Flaky != "" {
-		for i := 1; i < 30 && hasViolation(res, id) == nil; i++ {
+		for i := 1; i < 60 && hasViolation(res, id) == nil; i++ {
+			old := runtime.GOMAXPROCS([]int{0, 1, 2}[i%3])
 			res = runScenario(rf.Scenario)
+			runtime.GOMAXPROCS(old)
 		}
 		fmt.Printf("  (timing-dependent finding, recorded as reproducing %s)\n", rf.Flaky)
 	}
